@@ -288,6 +288,7 @@ func simulate(t *rapid.T, rec *ev.Rec, finality, forkChoice bool) {
 		// the silence starts a few slots after the fork (so that the irreversible block ends up anywhere around the
 		// fork point) and is complete or nearly so
 		quietOutOf := 6
+		forcedUntil := -1 // "precise" attacks: up to this slot the correct producers all produce and deliver at once
 		if attack && rapid.Bool().Draw(t, "totalSilence") {
 			quietOutOf = 1000
 		}
@@ -313,6 +314,9 @@ func simulate(t *rapid.T, rec *ev.Rec, finality, forkChoice bool) {
 			}
 			queue = rest
 			act := rapid.SampledFrom([]string{"produce", "produce", "produce", "produce", "produce", "skip", "equivocate", "restart"}).Draw(t, "act")
+			if j <= forcedUntil && !equivocators[k] {
+				act = "produce"
+			}
 			if j >= attackFrom && !equivocators[k] && act != "restart" && rapid.IntRange(0, quietOutOf-1).Draw(t, "quiet") > 0 {
 				act = "skip"
 			}
@@ -385,7 +389,18 @@ func simulate(t *rapid.T, rec *ev.Rec, finality, forkChoice bool) {
 						s.forks++
 						s.private[k], s.privLast[k] = extra, extra.BlockNo()
 						if attack && attackFrom > nslots {
-							attackFrom = j + 1 + rapid.IntRange(0, 8).Draw(t, "silenceAfter")
+							m := rapid.IntRange(0, 8).Draw(t, "silenceAfter")
+							attackFrom = j + 1 + m
+							if rapid.Bool().Draw(t, "precise") {
+								// the main chain grows by exactly the blocks of the next m slots, then falls silent long
+								// enough for the private branch to outgrow it: the irreversible block ends up just below,
+								// at or just above the fork, depending on m
+								forcedUntil = j + m
+								quietOutOf = 1000
+								if need := attackFrom + 4*(m+4); need > nslots && need <= 90 {
+									nslots = need
+								}
+							}
 						}
 					}
 				}
@@ -400,7 +415,11 @@ func simulate(t *rapid.T, rec *ev.Rec, finality, forkChoice bool) {
 					if blk == nil {
 						continue
 					}
-					switch d := rapid.SampledFrom([]string{"now", "now", "now", "later", "later", "never"}).Draw(t, "delivery"); d {
+					d := rapid.SampledFrom([]string{"now", "now", "now", "later", "later", "never"}).Draw(t, "delivery")
+					if j <= forcedUntil {
+						d = "now"
+					}
+					switch d {
 					case "now":
 						s.deliver(x, blk, fmt.Sprintf("slot %d: delivery of block %d (variant %d) to node %d", j, blk.BlockNo(), bi, x))
 					case "later":
